@@ -19,34 +19,54 @@ RULE = ("configs: random trees (depth <= 4, fan-out <= 4, at most ~40 lines, ind
         "Oracle rows are computed with Python's re on the kept line texts using the property's reading of the flags (fullmatch / whitespace runs -> \\s+ / "
         "literal text / literal text with tolerant whitespace runs for escape_chars+ignore_ws), for every calling form. Not sent to the model (implementation and "
         "oracle still run): the wo-child list form when the second character of p is not a valid expression (re.error, F07). "
-        "regex_flags / regex_groups are not generated; "
-        "typeguard rejections are out of scope. non-trivial = the config has a child line and the answer is a non-empty list; distinct by request.")
+        "regex_flags is not generated (not one of the property's flags). "
+        "ARGUMENT-FORM STREAMS (2 more queries per config, channel searchf, model Ccp.SearchForms): every expression may be written as a compiled "
+        "re.Pattern, as a BaseCfgLine of this parse or a foreign one (linenum, text), be omitted (None) or ill-typed (int); list arguments also as a "
+        "tuple, lists of the wrong length / mixed element kinds; find_object_branches(regex_groups=True) with capture-group expressions "
+        "((p), (p)|(zz) with a non-participating group, (\\S+)\\s*(\\S*)) x empty_branches x reverse; BaseCfgLine.re_search and "
+        "BaseCfgLine.re_search_children called on every line; and ~25% of these queries are asked while an uncommitted ConfigList.insert() is "
+        "pending (auto_commit=False): every API must refuse (NotImplementedError, or the error of an argument check that precedes the guard). "
+        "The exception class of every rejection is compared with the model (ValueError, TypeError, IndexError, InvalidParameters, "
+        "NotImplementedError, typeguard's TypeCheckError where the first element decides). The oracle judges compiled patterns like the str, "
+        "tuples like lists, regex_groups rows against the brute-force chains, and the refusal while pending; for BaseCfgLine / missing / ill-typed "
+        "arguments the property does not say which lines are right (only: sorted, unique, lines of the config) and the answer is compared with the model only. "
+        "Half of all cases leave the keyword arguments that sit at their documented default (recurse / all_children / empty_branches / reverse) "
+        "out of the call, so the defaults of the signatures are observed as well. "
+        "non-trivial = the config has a child line and the answer is a non-empty list; distinct by request.")
 LEVEL_TEXT = ("Theorems (Lean 4, all trees, all oracle rows): find_objects = ascending list of matching lines (reversed on request, duplicate free, in range); "
               "find_object_branches without empty branches = the lexicographically ordered list of all chains of direct parent->child lines matching "
               "regex i at depth i, and with empty branches = the maximal partial chains padded with None; list forms of find_parent/find_child = ascending "
               "duplicate-free first/last components of the chains; two-argument forms and 'parents without child' = exactly the matching parents having "
               "some/no matching direct (recurse=False) or any-depth (recurse=True, under the forest invariant parent <= line) child; list form of length 2 = "
-              "two-argument form at recurse=False for either value of reverse and any flag reading of the rows; has_child_with = some matching direct/any-depth child. The model is tied to the code by differential runs (tree dump and answer of every query compared).")
+              "two-argument form at recurse=False for either value of reverse and any flag reading of the rows; has_child_with = some matching direct/any-depth child. "
+              "Argument handling (Ccp.SearchForms, all arguments and flags): with str arguments and nothing pending it adds nothing (forms_str_agree); a compiled re.Pattern answers like the str "
+              "with the same row wherever accepted and is otherwise refused, never mis-read (pattern_form_agrees / pattern_form_refused); a tuple answers like the list (tuple_form_agrees); a BaseCfgLine "
+              "parentspec is read as its text, find_objects(obj) returns exactly the line equal to obj (line_as_parentspec, findObjects_line_spec); while an insert is pending no API answers "
+              "(pending_refused); obj.re_search / obj.re_search_children = the row / the matching direct or any-depth children (objSearch_spec); regex_groups=True = one row of tuple cells per maximal "
+              "partial chain, capture groups or the line itself per cell (branches_groups_partial; the full statement fails for empty_branches=False: finding FC04f). "
+              "The model is tied to the code by differential runs (tree dump and answer of every query compared).")
 LEVEL_NOTE = ("Trusted: Lean kernel, standard axioms, the harness. Python's re is an oracle parameter (rows), universally quantified in the theorems and computed with re "
               "directly in the runs. The tree model is shared with C01-C03; the forest invariant is a hypothesis here (proved for parse by C03).")
 LEVEL_NOTE += (" " + "regexes_as_modelled (Ccp.RxC04): the templates behind the flag readings of the oracle rows (re.sub(r'\\s+', <backslash backslash s+>) of build_space_tolerant_regex, re.sub(r'\\\\(\\s)', r'\\1', re.escape(..)) of escape_linespec, '^(?:%s)$' of _find_line_OBJ) are re-read from /repo's AST on every run and proved equal to the ones the TRUSTED flag reading was written for.")
 ASSUMPTIONS = ["regular expressions compile; lines contain no line break (so '^(?:p)$' with search is fullmatch)",
                "no 64-bit hash collision between distinct (linenum, text) pairs (set de-duplication after F03)",
-               "regex_flags=0, regex_groups=False"]
+               "regex_flags=0",
+               "typeguard's collection check looks at the first element only (its default strategy), as observed on the pinned version"]
 TRUSTED = ["flag readings used for the oracle rows: exactmatch=fullmatch, ignore_ws=whitespace runs of the pattern become \\s+, escape_chars=literal text"]
 EXHAUSTIVE = {"quick": False, "thorough": False}
 
-APIS = ["fo", "fol", "br", "pl", "cl", "p2", "c2", "w2", "wl", "rc", "hc"]
+APIS = ["fo", "fol", "br", "pl", "cl", "p2", "c2", "w2", "wl", "rc", "hc", "os", "oc"]
 API_NAME = {
     "fo": "find_objects", "fol": "find_objects[list]", "br": "find_object_branches", "pl": "find_parent_objects[list]",
     "cl": "find_child_objects[list]", "p2": "find_parent_objects", "c2": "find_child_objects", "w2": "find_parent_objects_wo_child",
     "wl": "find_parent_objects_wo_child[list]", "rc": "CiscoConfParse.re_search_children", "hc": "has_child_with",
+    "os": "BaseCfgLine.re_search", "oc": "BaseCfgLine.re_search_children",
 }
 # which flags an API accepts
 ACCEPTS = {
-    "fo": "awxr", "fol": "awxr", "br": "er", "pl": "wxr", "cl": "wxr", "p2": "wxrc", "c2": "wxrc", "w2": "wxrc", "wl": "wxrc",
-    "rc": "c", "hc": "c",
-}   # a exactmatch, w ignore_ws, x escape_chars, r reverse, c recurse/all_children, e empty_branches
+    "fo": "awxr", "fol": "awxr", "br": "egr", "pl": "wxr", "cl": "wxr", "p2": "wxrc", "c2": "wxrc", "w2": "wxrc", "wl": "wxrc",
+    "rc": "c", "hc": "c", "os": "", "oc": "c",
+}   # a exactmatch, w ignore_ws, x escape_chars, r reverse, c recurse/all_children, e empty_branches, g regex_groups
 
 POOL = [
     "interface Eth1", "interface Eth10", "interface Eth1/1", "ip address 1.1.1.1 255.0.0.0", "ip  address 1.1.1.1 255.0.0.0",
@@ -102,6 +122,8 @@ def has_ws(p):
 # ------------------------------------------------------------------ cases
 def mk(cfg, q, origin="gen"):
     """cfg = dict(syntax, ignore_blank, delims, lines); q = dict(api, pats, flags)"""
+    if is_form(q):
+        return mkf(cfg, q, origin)
     api, pats, flags = q["api"], list(q["pats"]), "".join(sorted(set(q["flags"]) & set(ACCEPTS[q["api"]])))
     case = {
         "syntax": cfg["syntax"], "factory": False, "ignore_blank": bool(cfg["ignore_blank"]), "delims": cfg["delims"],
@@ -131,9 +153,120 @@ def mk(cfg, q, origin="gen"):
     return case
 
 
+# ------------------------------------------------------------------ other spellings of the arguments (channel `searchf`)
+# kinds: s str, p re.compile(..), o a BaseCfgLine, n None (argument omitted), i an int
+LIST_APIS = ("fol", "br", "pl", "cl", "wl")
+MODEL_OP = {"fol": "fo", "cl": "c2", "wl": "w2"}
+FORM_KEYS = ("kinds", "tuple", "pend", "onum")
+
+
+def kinds_of(case):
+    return case.get("kinds") or "s" * len(case["pats"])
+
+
+def is_form(case):
+    return bool(case.get("tuple") or case.get("pend") or set(kinds_of(case)) - {"s"} or case["api"] in ("os", "oc")
+                or (case["api"] == "br" and "g" in case.get("flags", "")))
+
+
+def split_args(case):
+    """-> (shape, [(kind, pat)] of the first argument, (kind, pat) of childspec or None)"""
+    api, pats, kinds = case["api"], case["pats"], kinds_of(case)
+    items = list(zip(kinds, pats))
+    if api in LIST_APIS:
+        return ("t" if case.get("tuple") else "l"), items, None
+    if api in ("fo", "rc", "hc", "os", "oc"):
+        return "1", items[:1], None
+    if case.get("tuple"):                        # w2 / c2 with a tuple as parentspec and a childspec
+        return "t", items[:-1], items[-1]
+    return "1", items[:1], items[1]
+
+
+def code_expr(kind, pat, flags, api):
+    """the expression the CODE ends up evaluating for one argument (None: it never evaluates one)"""
+    if kind == "s":
+        return None                              # the flag reading (after FC04a-d the code's composition is the property's)
+    if kind == "p":
+        if "a" in flags and api in ("fo", "fol"):
+            return "^(?:%s)$" % re.compile(pat)  # _find_line_OBJ formats the Pattern object itself (FC04e)
+        return pat
+    if kind == "o" and api in ("c2", "w2"):       # elsewhere a BaseCfgLine is compared, not evaluated
+        return ws_pattern(pat) if "w" in flags else pat
+    return None
+
+
+def mkf(cfg, q, origin="gen"):
+    """q = dict(api, pats, kinds, flags[, tuple, pend, onum]) -> a case for the `searchf` channel"""
+    api, pats = q["api"], list(q["pats"])
+    kinds = q.get("kinds") or "s" * len(pats)
+    kinds = "".join("s" if k == "p" and not compiles(p) else k for k, p in zip(kinds, pats))
+    flags = "".join(sorted(set(q["flags"]) & set(ACCEPTS[api])))
+    case = {
+        "syntax": cfg["syntax"], "factory": False, "ignore_blank": bool(cfg["ignore_blank"]), "delims": cfg["delims"],
+        "lines": list(cfg["lines"]), "api": api, "pats": pats, "flags": flags, "_origin": origin, "req": None,
+        "kinds": kinds, "tuple": bool(q.get("tuple")), "pend": bool(q.get("pend")), "onum": int(q.get("onum") or 0),
+    }
+    if case["pend"]:
+        case["auto_commit"] = False
+        case["pend_at"] = int(q.get("pend_at") or 0)
+        case["pend_text"] = q.get("pend_text", " zz")
+    lines = case["lines"]
+    if not all(wire.wire_safe(l) for l in lines) or not all(wire.wire_safe(p) for p in pats):
+        return case
+    kept = T.ref_kept(lines, cfg["syntax"] == "ios", case["ignore_blank"])
+    rflags = "" if api in ("rc", "hc", "br", "os", "oc") else flags
+    shape, first, child = split_args(case)
+    rows = []
+    try:
+        for kind, pat in first + ([child] if child else []):
+            ce = code_expr(kind, pat, rflags, api)
+            if kind == "s":
+                rows.append(row_of(pat, rflags, kept))
+            elif ce is None:
+                rows.append([False] * len(kept))
+            else:
+                cre = re.compile(ce)
+                rows.append([cre.search(t) is not None for t in kept])
+    except (re.error, RecursionError, OverflowError):
+        return case                              # the code raises re.error: not sent to the model
+    p1 = "-"
+    if api == "wl" and len(pats) == 2 and kinds[0] == "s" and len(pats[0]) >= 2:
+        c_eff = pats[0][1]
+        if "x" not in flags and not compiles(ws_pattern(c_eff) if "w" in flags else c_eff):
+            return case
+        p1 = enc_row(row_of(c_eff, rflags, kept))
+    mflags = "".join(c for c in flags if c in "awxrce") + ("u" if case["pend"] else "")
+    ds = T.cfg_delims(cfg["syntax"], cfg["delims"])
+    if api == "br" and "g" in flags:
+        if set(kinds) - {"s"}:
+            return case
+        table = []
+        for pat in pats:
+            cre = re.compile(pat)
+            ent = []
+            for t in kept:
+                m = cre.search(t)
+                ent.append("x" if m is None else "g" + ",".join("-" if x is None else wire.enc_str(x) for x in m.groups()))
+            table.append("G" + ";".join(ent))
+        case["req"] = wire.req(
+            "searchf", "1" if cfg["syntax"] == "ios" else "0", wire.enc_str("".join(ds)), "1" if case["ignore_blank"] else "0",
+            wire.enc_strs(lines), "brg", mflags, " ".join(enc_row(r) for r in rows), " ".join(table) if table else "-")
+        return case
+    otext = next((p for k, p in first if k == "o"), "")
+    case["req"] = wire.req(
+        "searchf", "1" if cfg["syntax"] == "ios" else "0", wire.enc_str("".join(ds)), "1" if case["ignore_blank"] else "0",
+        wire.enc_strs(lines), MODEL_OP.get(api, api), mflags, shape + "".join(k for k, _ in first),
+        child[0] if child else "-", " ".join(enc_row(r) for r in rows), p1, str(case["onum"]), wire.enc_str(otext))
+    return case
+
+
 def from_corpus(c):
     cfg = {"syntax": c.get("syntax", "ios"), "ignore_blank": c.get("ignore_blank", False), "delims": c.get("delims"), "lines": c["lines"]}
-    return mk(cfg, {"api": c["api"], "pats": c["pats"], "flags": c.get("flags", "")}, "corpus")
+    q = {"api": c["api"], "pats": c["pats"], "flags": c.get("flags", "")}
+    for k in FORM_KEYS + ("pend_at", "pend_text"):
+        if k in c:
+            q[k] = c[k]
+    return mk(cfg, q, "corpus")
 
 
 def rand_tree_lines(rng, delims):
@@ -263,7 +396,7 @@ def rand_chain(rng, ch, n):
 def rand_flags(rng, api):
     fl = ""
     for c in ACCEPTS[api]:
-        p = {"a": 0.25, "w": 0.25, "x": 0.2, "r": 0.3, "c": 0.5, "e": 0.5}[c]
+        p = {"a": 0.25, "w": 0.25, "x": 0.2, "r": 0.3, "c": 0.5, "e": 0.5, "g": 0.3}[c]
         if rng.random() < p:
             fl += c
     return fl
@@ -273,7 +406,7 @@ def rand_query(rng, cfg, kept, ch, api=None):
     api = api or rng.choice(["fo", "fo", "fol", "br", "br", "br", "pl", "pl", "cl", "cl", "p2", "p2", "c2", "c2", "w2", "w2", "wl", "rc", "hc"])
     flags = rand_flags(rng, api)
     literal = "x" in flags
-    if api in ("fo", "rc", "hc"):
+    if api in ("fo", "rc", "hc", "os", "oc"):
         n = 1
     elif api == "fol":
         n = rng.choice([1, 1, 1, 1, 0, 2])
@@ -295,7 +428,79 @@ def rand_query(rng, cfg, kept, ch, api=None):
             pats.append(rng.choice(EMPTY_MATCH))
         else:
             pats.append(rand_pattern(rng, kept, anchor, literal))
+    if "g" in flags:                             # regex_groups: give most expressions capture groups
+        for j, p in enumerate(pats):
+            r = rng.random()
+            q = "(" + p + ")" if r < 0.35 else "(" + p + ")|(zz)" if r < 0.45 else r"(\S+)\s*(\S*)" if r < 0.55 else p
+            if compiles(q):
+                pats[j] = q
     return {"api": api, "pats": pats, "flags": flags}
+
+
+def wchoice(rng, table):
+    """table = 'sssppo' -> one letter, frequency = multiplicity"""
+    return rng.choice(table)
+
+
+def rand_form_query(rng, cfg, kept, ch):
+    """a query written with the other accepted spellings (compiled patterns, BaseCfgLine, tuple, missing / ill-typed
+    arguments) and / or asked while an uncommitted insert is pending"""
+    api = rng.choice(["fo", "fo", "fo", "fol", "fol", "br", "br", "pl", "cl", "cl", "cl", "p2", "p2", "c2", "c2", "c2",
+                      "w2", "w2", "w2", "wl", "wl", "rc", "hc", "hc", "os", "oc", "oc"])
+    q = rand_query(rng, cfg, kept, ch, api)
+    pats, n = q["pats"], len(q["pats"])
+    kinds, tup = ["s"] * n, False
+    if api == "fo":
+        kinds[0] = wchoice(rng, "pppppppppoooooooossin")
+    elif api == "fol":
+        r = rng.random()
+        if r < 0.5:
+            kinds = ["p"] * n
+        elif r < 0.7:
+            kinds = [wchoice(rng, "sp") for _ in range(n)]
+        elif r < 0.8 and n >= 1:
+            kinds[0] = "o"
+        elif r < 0.85:
+            tup = True
+    elif api == "br":
+        tup = rng.random() < 0.75
+    elif api == "p2":
+        kinds = [wchoice(rng, "ssppp"), wchoice(rng, "sssnn")]
+    elif api == "cl":
+        r = rng.random()
+        if r < 0.5:
+            tup = True
+        elif r < 0.85:
+            pats, kinds, tup = pats[:1] or ["a"], [wchoice(rng, "ppoo")], rng.random() < 0.4
+    elif api == "c2":
+        kinds = [wchoice(rng, "sssppooooin"), wchoice(rng, "ssssspppoin")]
+    elif api == "wl":
+        kinds = [wchoice(rng, "sssspp") for _ in range(n)]
+    elif api == "w2":
+        kinds = [wchoice(rng, "ssppppooooin"), wchoice(rng, "sssssppppoin")]
+        if rng.random() < 0.1:
+            pats, kinds, tup = [pats[0], rand_pattern(rng, kept), pats[1]], ["s", "s", kinds[1]], True
+    elif api == "rc":
+        kinds[0] = wchoice(rng, "ppppppoooosi")
+    elif api in ("hc", "os", "oc"):
+        kinds[0] = wchoice(rng, "ssspppppppin" if api != "hc" else "pppppppsin")
+    onum = 0
+    if "o" in kinds:
+        if kept and rng.random() < 0.85:
+            onum = rng.randrange(len(kept))
+            if api in ("c2", "w2") and rng.random() < 0.7:
+                withkids = [i for i in range(len(kept)) if ch[i]]
+                onum = rng.choice(withkids) if withkids else onum
+            text = kept[onum]
+        else:                                    # a foreign object: this linenum may or may not carry this text
+            onum = rng.randrange(len(kept) + 2)
+            text = rng.choice(kept) if kept and rng.random() < 0.6 else rng.choice(POOL)
+        pats = [text if k == "o" else p for k, p in zip(kinds, pats)]
+    pats = ["" if k in "ni" else p for k, p in zip(kinds, pats)]
+    q = dict(q, pats=pats, kinds="".join(kinds), tuple=tup, onum=onum)
+    if rng.random() < 0.2 or not is_form(q):
+        q.update(pend=True, pend_at=rng.randrange(len(kept) + 1), pend_text=rng.choice(["zz", " zz", "  " + rng.choice(POOL), ""]))
+    return q
 
 
 def rand_cfg(rng):
@@ -309,6 +514,15 @@ def rand_cfg(rng):
 
 
 def cases(rng, tier):
+    """half of the cases leave the keyword arguments that sit at their documented default out of the call
+    (recurse / all_children / empty_branches / reverse), so the defaults of the signatures are observed too"""
+    orng = __import__("random").Random(rng.random())
+    for c in _cases(rng, tier):
+        c["omit"] = orng.random() < 0.5
+        yield c
+
+
+def _cases(rng, tier):
     T.selfcheck()
     n = {"quick": 2000, "thorough": 20000, "search": 400}[tier]
     for _ in range(n):
@@ -317,6 +531,8 @@ def cases(rng, tier):
         _, ch = ref_children(kept, T.cfg_delims(cfg["syntax"], cfg["delims"]))
         for _ in range(10):
             yield mk(cfg, rand_query(rng, cfg, kept, ch))
+        for _ in range(2):
+            yield mk(cfg, rand_form_query(rng, cfg, kept, ch))
         # the same (p, c, flags) through the list form and the two-argument form
         q = rand_query(rng, cfg, kept, ch, rng.choice(["p2", "c2", "w2"]))
         fl = q["flags"].replace("c", "")
@@ -327,6 +543,9 @@ def cases(rng, tier):
 def neighbours(case, rng):
     cfg0 = {k: case[k] for k in ("syntax", "ignore_blank", "delims", "lines")}
     q = {"api": case["api"], "pats": case["pats"], "flags": case["flags"]}
+    for k in FORM_KEYS + ("pend_at", "pend_text"):
+        if k in case:
+            q[k] = case[k]
     for _ in range(300):
         ls = list(case["lines"])
         r = rng.random()
@@ -346,7 +565,122 @@ def enc_branches(bs):
     return ";".join(",".join("-" if o is None else str(o.linenum) for o in b) for b in bs)
 
 
-def run_query(parse, case):
+def enc_item(x):
+    if x is None:
+        return "-"
+    if isinstance(x, str):
+        return wire.enc_str(x)
+    return "#%d" % x.linenum
+
+
+def enc_cell(c):
+    """a cell of a regex_groups=True row: a tuple or a list of None / line objects / group texts"""
+    if isinstance(c, tuple):
+        return "T" + ",".join(enc_item(x) for x in c)
+    if isinstance(c, list):
+        return "L" + ",".join(enc_item(x) for x in c)
+    return "?" + type(c).__name__
+
+
+def enc_matrix(bs):
+    return ";".join(":".join(enc_cell(c) for c in b) for b in bs)
+
+
+def the_line(parse, case, text):
+    """the BaseCfgLine argument: line `onum` of this parse when it has that text, else a foreign object (linenum, text)"""
+    objs, k = parse.objs, case.get("onum") or 0
+    if k < len(objs) and objs[k].text == text:
+        return objs[k]
+    from ciscoconfparse2.ciscoconfparse2 import CFGLINE
+    o = CFGLINE[case["syntax"]](line=text)
+    o.linenum = k
+    return o
+
+
+def mk_arg(parse, case, kind, pat):
+    if kind == "s":
+        return pat
+    if kind == "p":
+        return re.compile(pat)
+    if kind == "o":
+        return the_line(parse, case, pat)
+    if kind == "n":
+        return None
+    return 3
+
+
+# documented defaults of the keyword arguments that the runners used to pass explicitly every time
+REC_DEFAULT = {"p2": True, "c2": True, "w2": False, "wl": False, "rc": False, "hc": False, "oc": False}
+
+
+def rec_kw(case, name="recurse"):
+    """recurse= / all_children= of the request; LEFT OUT when the case says so and the value is the documented default"""
+    rec = "c" in case["flags"]
+    if case.get("omit") and rec == REC_DEFAULT[case["api"]]:
+        return {}
+    return {name: rec}
+
+
+def br_kw(case):
+    fl = case["flags"]
+    kw = {"empty_branches": "e" in fl, "reverse": "r" in fl}
+    if case.get("omit"):
+        kw = {k: v for k, v in kw.items() if v}
+    return kw
+
+
+def run_form_query(parse, case, objs):
+    api, fl = case["api"], case["flags"]
+    kw = {}
+    for c, name in (("a", "exactmatch"), ("w", "ignore_ws"), ("x", "escape_chars"), ("r", "reverse")):
+        if c in fl:
+            kw[name] = True
+    shape, first, child = split_args(case)
+    args = [mk_arg(parse, case, k, p) for k, p in first]
+    a0 = args[0] if shape == "1" else (tuple(args) if shape == "t" else list(args))
+    c0 = mk_arg(parse, case, *child) if child else None
+    if api in ("fo", "fol"):
+        return T.lnums(parse.find_objects(a0, **kw))
+    if api == "br" and "g" in fl:
+        return enc_matrix(parse.find_object_branches(a0, regex_groups=True, **br_kw(case)))
+    if api == "br":
+        return enc_branches(parse.find_object_branches(a0, **br_kw(case)))
+    if api == "pl":
+        return T.lnums(parse.find_parent_objects(a0, **kw))
+    if api == "cl":
+        return T.lnums(parse.find_child_objects(a0, **kw))
+    if api == "p2":
+        return T.lnums(parse.find_parent_objects(a0, c0, **rec_kw(case), **kw))
+    if api == "c2":
+        return T.lnums(parse.find_child_objects(a0, c0, **rec_kw(case), **kw))
+    if api == "w2":
+        return T.lnums(parse.find_parent_objects_wo_child(a0, c0, **rec_kw(case), **kw))
+    if api == "wl":
+        return T.lnums(parse.find_parent_objects_wo_child(a0, **rec_kw(case), **kw))
+    if api == "rc":
+        return T.lnums(parse.re_search_children(a0, **rec_kw(case)))
+    # objs: the line objects as they were before a pending insert
+    if api == "hc":
+        return T.lnums([o for o in objs if o.has_child_with(a0, **rec_kw(case, "all_children"))])
+    if api == "os":
+        out = []
+        for o in objs:
+            r = o.re_search(a0, default=None)
+            if r is not None:
+                if r != o.text or o.re_search(a0) != o.text:
+                    return "wrong-text:%d" % o.linenum
+                out.append(o)
+            elif o.re_search(a0, default="dflt") != "dflt":
+                return "wrong-default:%d" % o.linenum
+        return T.lnums(out)
+    if api == "oc":
+        return ";".join(T.lnums(o.re_search_children(a0, **rec_kw(case))) for o in objs)
+    raise AssertionError(api)
+
+
+def run_query(parse, case, objs=None):
+    if is_form(case):
+        return run_form_query(parse, case, list(parse.objs) if objs is None else objs)
     api, pats, fl = case["api"], case["pats"], case["flags"]
     kw = {}
     if "a" in fl:
@@ -357,29 +691,28 @@ def run_query(parse, case):
         kw["escape_chars"] = True
     if "r" in fl:
         kw["reverse"] = True
-    rec = "c" in fl
     if api == "fo":
         return T.lnums(parse.find_objects(pats[0], **kw))
     if api == "fol":
         return T.lnums(parse.find_objects(list(pats), **kw))
     if api == "br":
-        return enc_branches(parse.find_object_branches(list(pats), empty_branches="e" in fl, reverse="r" in fl))
+        return enc_branches(parse.find_object_branches(list(pats), **br_kw(case)))
     if api == "pl":
         return T.lnums(parse.find_parent_objects(list(pats), **kw))
     if api == "cl":
         return T.lnums(parse.find_child_objects(list(pats), **kw))
     if api == "p2":
-        return T.lnums(parse.find_parent_objects(pats[0], pats[1], recurse=rec, **kw))
+        return T.lnums(parse.find_parent_objects(pats[0], pats[1], **rec_kw(case), **kw))
     if api == "c2":
-        return T.lnums(parse.find_child_objects(pats[0], pats[1], recurse=rec, **kw))
+        return T.lnums(parse.find_child_objects(pats[0], pats[1], **rec_kw(case), **kw))
     if api == "w2":
-        return T.lnums(parse.find_parent_objects_wo_child(pats[0], pats[1], recurse=rec, **kw))
+        return T.lnums(parse.find_parent_objects_wo_child(pats[0], pats[1], **rec_kw(case), **kw))
     if api == "wl":
-        return T.lnums(parse.find_parent_objects_wo_child(list(pats), recurse=rec, **kw))
+        return T.lnums(parse.find_parent_objects_wo_child(list(pats), **rec_kw(case), **kw))
     if api == "rc":
-        return T.lnums(parse.re_search_children(pats[0], recurse=rec))
+        return T.lnums(parse.re_search_children(pats[0], **rec_kw(case)))
     if api == "hc":
-        return T.lnums([o for o in parse.objs if o.has_child_with(pats[0], all_children=rec)])
+        return T.lnums([o for o in parse.objs if o.has_child_with(pats[0], **rec_kw(case, "all_children"))])
     raise AssertionError(api)
 
 
@@ -392,7 +725,9 @@ def impl(case):
     objs = list(p.objs)
     dump = "|".join([T.lnums([o.parent for o in objs]), ";".join(T.lnums(o.children) for o in objs)])
     try:
-        ans = run_query(p, case)
+        if case.get("pend"):                     # an uncommitted ConfigList.insert(): search_safe is False from here on
+            p.config_objs.insert(min(case.get("pend_at", 0), len(objs)), case.get("pend_text", " zz"))
+        ans = run_query(p, case, objs)
     except BaseException as e:  # noqa: BLE001
         ans = "err:" + type(e).__name__
     return dump + "&" + ans + "&" + wire.enc_strs([o.text for o in objs])
@@ -469,7 +804,17 @@ def expected(case, parents, children, texts, flags=None, pats=None):
     fl = case["flags"] if flags is None else flags
     pats = case["pats"] if pats is None else pats
     n = len(texts)
-    rfl = fl if api not in ("rc", "hc", "br") else ""
+    kinds = kinds_of(case)
+    if set(kinds) & set("oni"):
+        return None                              # a BaseCfgLine / missing / ill-typed expression: the property does not say
+    if "p" in kinds:
+        if "w" in fl or "x" in fl:
+            return None                          # a compiled expression cannot be rewritten: refused (ValueError / TypeError)
+        if api in ("p2", "c2") and kinds[0] == "p":
+            return None                          # refused (InvalidParameters)
+    if case.get("tuple") and api not in ("br", "cl"):
+        return None                              # a tuple is documented for find_object_branches and find_child_objects only
+    rfl = fl if api not in ("rc", "hc", "br", "os", "oc") else ""
     try:
         ms = [row_of(p, rfl, texts) for p in pats]
     except re.error:
@@ -494,6 +839,15 @@ def expected(case, parents, children, texts, flags=None, pats=None):
         tps = padded_chains(children, ms) if "e" in fl else all_chains(children, ms)
         if rev:
             tps = tps[::-1]
+        if "g" in fl:
+            # every line of a chain is reported by the capture groups of its expression (the line itself when the
+            # expression has none); a missing line by (None,)
+            def cell(j, c):
+                if c is None:
+                    return "T-"
+                gs = re.search(pats[j], texts[c]).groups()
+                return "T" + ",".join("-" if x is None else wire.enc_str(x) for x in gs) if gs else "T#%d" % c
+            return ";".join(":".join(cell(j, c) for j, c in enumerate(tp)) for tp in tps)
         return ";".join(",".join("-" if x is None else str(x) for x in tp) for tp in tps)
     if api in ("pl", "cl"):
         if len(pats) == 0:
@@ -513,6 +867,10 @@ def expected(case, parents, children, texts, flags=None, pats=None):
         return wire.enc_nats([i for i in range(n) if ms[0][i] and (rec or parents[i] == i)])
     if api == "hc":
         return wire.enc_nats([p for p in range(n) if any(ms[0][c] for c in kids(p))])
+    if api == "os":
+        return wire.enc_nats([i for i in range(n) if ms[0][i]])
+    if api == "oc":
+        return ";".join(wire.enc_nats([c for c in kids(p) if ms[0][c]]) for p in range(n))
     raise AssertionError(api)
 
 
@@ -521,7 +879,23 @@ def oracle(case, ans):
         return ["[parse] " + ans]
     parents, children, res, texts = parse_answer(ans)
     api, fl = case["api"], case["flags"]
+    if case.get("pend"):
+        # searches are refused while an uncommitted insert is pending (anchor ConfigList.search_safe); the only
+        # answer that does not read the stale tree is has_child_with over lines without children
+        if res.startswith("err:") or (api == "hc" and res == "" and not any(children)) or not texts:
+            return []
+        return [f"[answered-while-insert-pending] {API_NAME[api]}({case['pats']!r}, flags={fl!r}) answered {res[:120]!r} "
+                f"although ConfigList.insert() was not committed (search_safe is False)"]
     want = expected(case, parents, children, texts)
+    if want is None and not res.startswith("err:") and api not in ("br", "oc") and not res.startswith("wrong-"):
+        # the property does not say which lines; it still says: lines of the config, no duplicates, sorted by line number
+        try:
+            got = nat(res)
+        except ValueError:
+            got = None
+        ordered = got is not None and all((a > b) if "r" in fl else (a < b) for a, b in zip(got, got[1:]))
+        if not ordered or any(i >= len(texts) for i in got):
+            return [f"[result-not-sorted-unique-in-range] {API_NAME[api]}({case['pats']!r}, kinds={kinds_of(case)!r}, flags={fl!r}) returned {res[:120]!r}"]
     if want is None or res == want:
         return []
     name = API_NAME[api]
@@ -534,15 +908,30 @@ def oracle(case, ans):
             diag = "list-form-escape-typeerror"
     if api == "c2" and "r" in fl:
         alts.append(("reverse-ignored", fl.replace("r", ""), None))
+    if api == "br" and "g" in fl and "e" not in fl:
+        alts.append(("regex-groups-keeps-partial-branches", fl + "e", None))
     if api == "wl" and len(case["pats"]) == 2:
         p = case["pats"][0]
-        if len(p) < 2:
+        if kinds_of(case)[0] == "p":
+            if res == "err:TypeError":           # parentspec[1] of a compiled pattern: not subscriptable
+                diag = "wo-child-list-uses-p1"
+        elif len(p) < 2:
             if res == "err:IndexError":
                 diag = "wo-child-list-uses-p1"
         else:
             alts.append(("wo-child-list-uses-p1", fl, [p, p[1]]))
             if res == "err:error" and "x" not in fl and not compiles(p[1]):
                 diag = "wo-child-list-uses-p1"
+    if api in ("fo", "fol") and "a" in fl and "p" in kinds_of(case) and len(case["pats"]) == 1:
+        # what `"^(?:%s)$" % linespec` is for a compiled linespec
+        try:
+            cre = re.compile("^(?:%s)$" % re.compile(case["pats"][0]))
+            hits = [i for i, t in enumerate(texts) if cre.search(t)]
+            if res == wire.enc_nats(hits[::-1] if "r" in fl else hits):
+                diag = "exactmatch-formats-compiled-pattern"
+        except re.error:
+            if res == "err:error":
+                diag = "exactmatch-formats-compiled-pattern"
     for tag, afl, apats in alts:
         if diag != "unexplained":
             break
@@ -582,6 +971,10 @@ def known_id(case, failure):
     tag = failure[1:failure.index("]")] if failure.startswith("[") else ""
     if tag == "wo-child-list-uses-p1" and api == "wl" and len(case["pats"]) == 2:
         return "F07"
+    if tag == "exactmatch-formats-compiled-pattern" and api in ("fo", "fol") and "a" in case["flags"] and "p" in kinds_of(case):
+        return "FC04e"
+    if tag == "regex-groups-keeps-partial-branches" and api == "br" and "g" in case["flags"] and "e" not in case["flags"]:
+        return "FC04f"
     return None
 
 
@@ -592,6 +985,11 @@ def nontrivial(case):
 
 def describe(case):
     d = {k: case[k] for k in ("syntax", "ignore_blank", "delims", "api", "pats", "flags")}
+    if is_form(case):
+        d["argument_kinds"] = kinds_of(case) + " (s str, p re.compile, o BaseCfgLine, n None, i int)"
+        d["tuple"], d["insert_pending"], d["line_argument_linenum"] = case.get("tuple"), case.get("pend"), case.get("onum")
+    if case.get("omit"):
+        d["keyword_arguments_at_their_default"] = "left out of the call"
     d["api_name"] = API_NAME[case["api"]]
     d["lines"] = case["lines"] if len(case["lines"]) <= 45 else case["lines"][:45] + ["…"]
     return d
@@ -601,6 +999,12 @@ def buckets(case, ans):
     out = ["api:" + case["api"], "n_regex:%d" % len(case["pats"]), "in_model:%d" % (case.get("req") is not None)]
     for c in case["flags"]:
         out.append("flag:" + c)
+    if is_form(case):
+        out += ["kind:" + k for k in sorted(set(kinds_of(case)) - {"s"})]
+        if case.get("tuple"):
+            out.append("form:tuple")
+        if case.get("pend"):
+            out.append("form:insert-pending")
     if not case["flags"]:
         out.append("flag:none")
     try:
